@@ -11,7 +11,19 @@ IMPORTS = ["gen.Tables", "model.Cfg", "model.Names", "model.Wildcard", "model.Ad
 SKIPS = [[], ["addrgroup"], ["nc_wildcard"], ["addrgroup", "nc_wildcard"]]
 TARGETS = ["run/RunAce.vo"]
 
-CORPUS = [  # repaired defects F4, F5 and seeds, as abstract pairs (bottom, top)
+def _tcp(dport=None, sport=None):
+    return {"permit": True, "proto": 6, "src": ("set", 0, acegen.ag.ALL), "dst": ("set", 0, acegen.ag.ALL),
+            "sport": sport, "dport": dport, "flags": [], "logs": []}
+
+
+CORPUS2 = [  # a multi-port list is not an interval: inside the bounds, not in the list
+    ("ios", _tcp(("eq", [3])), _tcp(("eq", [1, 5]))), ("ios", _tcp(("eq", [2, 4])), _tcp(("eq", [1, 5]))),
+    ("ios", _tcp(("range", [1, 5])), _tcp(("eq", [1, 5]))), ("ios", _tcp(("lt", [4])), _tcp(("eq", [1, 5]))),
+    ("ios", _tcp(None, ("eq", [3])), _tcp(None, ("eq", [1, 5]))), ("ios", _tcp(None, ("range", [2, 4])), _tcp(None, ("eq", [1, 2, 4, 5]))),
+    ("ios", _tcp(("eq", [1, 5])), _tcp(("eq", [1, 3, 5]))), ("ios", _tcp(("eq", [1, 5])), _tcp(("range", [1, 5]))),
+]
+
+CORPUS = CORPUS2 + [  # repaired defects F4, F5 and seeds, as abstract pairs (bottom, top)
     ("ios", {"permit": True, "proto": 6, "src": ("set", 0, acegen.ag.ALL), "dst": ("set", 0, acegen.ag.ALL),
              "sport": None, "dport": None, "flags": [], "logs": []},
             {"permit": True, "proto": 6, "src": ("set", 0, acegen.ag.ALL), "dst": ("set", 0, acegen.ag.ALL),
@@ -61,14 +73,16 @@ def run(ctx, groups: bool):
         st = acegen.spell_ace(rnd, plat, top, names)
         rec = {"platform": plat, "bottom": bottom, "top": top, "bottom_text": sb["text"], "top_text": st["text"],
                "sb": sb, "st": st, "answers": {}}
+        has_group = any(x is not None for x in (sb["src_members"], sb["dst_members"], st["src_members"], st["dst_members"]))
+        hist = rnd.choice([0, 0, 1, 2, 3]) if has_group else 0
         for si, skip in enumerate(SKIPS):
-            def f(skip=skip):
-                b = acegen.build_impl(ca, plat, sb)
-                t = acegen.build_impl(ca, plat, st)
+            def f(skip=skip, hist=hist):
+                b = acegen.build_impl(ca, plat, sb, history=hist)
+                t = acegen.build_impl(ca, plat, st, history=hist)
                 return b.shadow_of(t, skip=list(skip) or None)
             ans = outcome(f)
             rec["answers"][si] = ans
-            meta = {"k": "shadow", "platform": plat, "skip": skip, "bottom": sb["text"], "top": st["text"],
+            meta = {"k": "shadow", "platform": plat, "skip": skip, "bottom": sb["text"], "top": st["text"], "history": hist,
                     "bottom_members": [sb["src_members"], sb["dst_members"]],
                     "top_members": [st["src_members"], st["dst_members"]],
                     "abstract": [bottom, top]}
@@ -93,7 +107,8 @@ def impl_answer(ca, meta):
     plat = meta["platform"]
     sb = {"text": meta["bottom"], "src_members": meta["bottom_members"][0], "dst_members": meta["bottom_members"][1]}
     st = {"text": meta["top"], "src_members": meta["top_members"][0], "dst_members": meta["top_members"][1]}
-    b = acegen.build_impl(ca, plat, sb)
-    t = acegen.build_impl(ca, plat, st)
-    return [outcome(lambda s=s: acegen.build_impl(ca, plat, sb).shadow_of(acegen.build_impl(ca, plat, st), skip=list(s) or None))
-            for s in SKIPS], b, t
+    hist = meta.get("history", 0)
+    b = acegen.build_impl(ca, plat, sb, history=hist)
+    t = acegen.build_impl(ca, plat, st, history=hist)
+    return [outcome(lambda s=s: acegen.build_impl(ca, plat, sb, history=hist).shadow_of(
+        acegen.build_impl(ca, plat, st, history=hist), skip=list(s) or None)) for s in SKIPS], b, t
